@@ -211,8 +211,8 @@ V(id='c33-zetaint-gate-reversed', prop='C33', file='mpmath/libmp/gammazeta.py',
   new="    if s in zeta_int_cache and zeta_int_cache[s][0] <= wp:",
   expect='fire:D-R1a:mpf_zeta_int')
 V(id='c33-memoize-no-gate', prop='C33', file='mpmath/ctx_base.py',
-  old="                if cprec >= prec:\n                    return +cvalue",
-  new="                return +cvalue",
+  old="                if cprec >= prec:\n                    try:\n                        return +cvalue\n                    except TypeError:\n                        # not a number (e.g. a tuple of results)\n                        return cvalue\n",
+  new="                try:\n                    return +cvalue\n                except TypeError:\n                    return cvalue\n",
   expect='fire:D-R1a:f_cached')
 V(id='c33-cmemo-gate-reversed', prop='C33', file='mpmath/functions/bessel.py',
   old="        if p >= prec:\n            return +v", new="        if p <= prec:\n            return +v",
@@ -1840,7 +1840,7 @@ V(id='c33-memo-tag-then-value', prop='C33', file='mpmath/libmp/libelefun.py',
   old="        f.memo_prec = -1\n        f.memo_val = val\n        f.memo_prec = newprec", new="        f.memo_prec = newprec\n        f.memo_val = val",
   expect='fire:D-R2:constant_memo.g')
 V(id='c33-lu-value-then-tag', prop='C33', file='mpmath/matrices/linalg.py',
-  old="            orig._LU_prec = 0\n            orig._LU = (A, p)", new="            orig._LU = (A, p)",
+  old="            orig._LU_prec = 0\n            orig._LU = (A.copy(), p[:])", new="            orig._LU = (A.copy(), p[:])",
   expect='fire:D-LU:LU_decomp')
 V(id='c33-eulernum-partial-store', prop='C33', file='mpmath/libmp/libintmath.py',
   old="            suma += a[k+1]\n        if n <= MAX:\n            _cache[n] = ((-1)**(n//2))*(suma // 2**n)",
@@ -2014,8 +2014,8 @@ V(id='c24-ci-si-threshold-benign', prop='C24', file='mpmath/libmp/libhyper.py',
 V(id='c29-error-floor-from-list-ends', prop='C29', file='mpmath/calculus/polynomials.py',
   old="        size = max([1] + [abs(r) for r in roots])", new="        size = max(1, abs(roots[0]), abs(roots[-1]))", expect='fire:R-P4:polyroots')
 V(id='c33-lu-check-after-store', prop='C33', file='mpmath/matrices/linalg.py',
-  old="        if ctx.absmin(A[n - 1,n - 1]) <= tol:\n            raise ZeroDivisionError('matrix is numerically singular')\n        # cache decomposition\n        if not overwrite and isinstance(orig, ctx.matrix):\n            # invalidate, store, validate: an interrupt between the stores\n            # must not leave factors under the wrong precision\n            orig._LU_prec = 0\n            orig._LU = (A, p)\n            orig._LU_prec = ctx.prec\n",
-  new="        # cache decomposition\n        if not overwrite and isinstance(orig, ctx.matrix):\n            # invalidate, store, validate: an interrupt between the stores\n            # must not leave factors under the wrong precision\n            orig._LU_prec = 0\n            orig._LU = (A, p)\n            orig._LU_prec = ctx.prec\n        if ctx.absmin(A[n - 1,n - 1]) <= tol:\n            raise ZeroDivisionError('matrix is numerically singular')\n",
+  old="        if ctx.absmin(A[n - 1,n - 1]) <= tol:\n            raise ZeroDivisionError('matrix is numerically singular')\n        # cache decomposition\n        if not overwrite and isinstance(orig, ctx.matrix):\n            # invalidate, store, validate: an interrupt between the stores\n            # must not leave factors under the wrong precision\n            orig._LU_prec = 0\n            orig._LU = (A.copy(), p[:])\n            orig._LU_prec = ctx.prec\n",
+  new="        # cache decomposition\n        if not overwrite and isinstance(orig, ctx.matrix):\n            # invalidate, store, validate: an interrupt between the stores\n            # must not leave factors under the wrong precision\n            orig._LU_prec = 0\n            orig._LU = (A.copy(), p[:])\n            orig._LU_prec = ctx.prec\n        if ctx.absmin(A[n - 1,n - 1]) <= tol:\n            raise ZeroDivisionError('matrix is numerically singular')\n",
   expect='fire:D-LU:LU_decomp')
 V(id='c38-cmemo-closure-cache', prop='C38', file='mpmath/functions/bessel.py',
   old="    name = f.__name__\n    def f_wrapped(ctx):\n        cache = ctx._misc_const_cache\n", new="    name = f.__name__\n    cache = {}\n    def f_wrapped(ctx):\n",
@@ -2395,3 +2395,45 @@ V(id='c11-enter-failure-keeps-stack-entry', prop='C11', file='mpmath/ctx_mp.py',
 V(id='c34-no-residual-test', prop='C34', file='mpmath/calculus/odes.py',
   old="        if res*radius <= (n+1)*tol:\n            break\n        radius /= 2\n", new="        break\n",
   expect='fire:O-R10:ode_taylor')
+
+# ---- C33 second hunt: D-R1g, D-R6h, D-LU2, D-R9 (fixes 07fa107, 1bf5546, b3ffa72, 5c4565b) ----
+V(id='c33-gamma-table-terms-of-requested-prec', prop='C33', file='mpmath/libmp/gammazeta.py',
+  old="        prec = int(prec * 1.2)\n        N = int(prec**0.787 + 2)\n", new="        prec = int(prec * 1.2)\n",
+  expect='fire:D-R1g:gamma_taylor_coefficients')
+V(id='c33-gamma-table-terms-recomputed-too-early', prop='C33', file='mpmath/libmp/gammazeta.py',
+  old="        prec = int(prec * 1.2)\n        N = int(prec**0.787 + 2)\n", new="        N = int(prec**0.787 + 2)\n        prec = int(prec * 1.2)\n",
+  expect='fire:D-R1g:gamma_taylor_coefficients')
+V(id='c33-benign-gamma-table-terms-after-block', prop='C33', file='mpmath/libmp/gammazeta.py',
+  old="        prec = int(prec * 1.2)\n        N = int(prec**0.787 + 2)\n\n    wp = prec + 20\n",
+  new="        prec = int(prec * 1.2)\n    N = int(prec**0.787 + 2) if prec > 1000 else N\n\n    wp = prec + 20\n",
+  expect='silent')
+V(id='c33-memoize-hit-plus-unguarded', prop='C33', file='mpmath/ctx_base.py',
+  old="                    try:\n                        return +cvalue\n                    except TypeError:\n                        # not a number (e.g. a tuple of results)\n                        return cvalue\n",
+  new="                    return +cvalue\n",
+  expect='fire:D-R6h:f_cached')
+V(id='c33-memoize-hit-handler-reraises', prop='C33', file='mpmath/ctx_base.py',
+  old="                        # not a number (e.g. a tuple of results)\n                        return cvalue\n",
+  new="                        raise\n",
+  expect='fire:D-R6h:f_cached')
+V(id='c33-benign-memoize-hit-plain', prop='C33', file='mpmath/ctx_base.py',
+  old="                    try:\n                        return +cvalue\n                    except TypeError:\n                        # not a number (e.g. a tuple of results)\n                        return cvalue\n",
+  new="                    return cvalue\n",
+  expect='silent')
+V(id='c33-lu-hit-returns-cached-pair', prop='C33', file='mpmath/matrices/linalg.py',
+  old="            LU, p = A._LU\n            return LU.copy(), p[:]\n", new="            return A._LU\n",
+  expect='fire:D-LU2:LU_decomp')
+V(id='c33-lu-hit-returns-cached-matrix', prop='C33', file='mpmath/matrices/linalg.py',
+  old="            return LU.copy(), p[:]\n", new="            return LU, p[:]\n",
+  expect='fire:D-LU2:LU_decomp')
+V(id='c33-lu-store-shares-result', prop='C33', file='mpmath/matrices/linalg.py',
+  old="            orig._LU = (A.copy(), p[:])\n", new="            orig._LU = (A, p)\n",
+  expect='fire:D-LU2:LU_decomp')
+V(id='c33-benign-lu-hit-list-copy', prop='C33', file='mpmath/matrices/linalg.py',
+  old="            return LU.copy(), p[:]\n", new="            return LU.copy(), list(p)\n",
+  expect='silent')
+V(id='c33-invlap-shared-rule-object', prop='C33', file='mpmath/calculus/inverselaplace.py',
+  old="                rule = Stehfest(ctx)\n", new="                rule = ctx._stehfest\n",
+  expect='fire:D-R9:invertlaplace')
+V(id='c33-invlap-shared-default-rule', prop='C33', file='mpmath/calculus/inverselaplace.py',
+  old="                rule = deHoog(ctx)\n", new="                rule = ctx._de_hoog\n",
+  expect='fire:D-R9:invertlaplace')
